@@ -291,14 +291,29 @@ def _chain_items(o, subj_of):
         o = nxt
 
 
-def _xml_props(qs, anon_subj, style, ind):
+def _xml_attrs(pairs):
+    """property attributes  e:q="lit" …  (plain literals about the element's node)"""
+    return "".join(" %s=%s" % (_xml_qname(p[1]), quoteattr(l[1])) for p, l in pairs)
+
+
+def _xml_foldable(x):
+    """can the statement be written as a property attribute?  (e: predicate, plain literal)"""
+    return x[1][0] == "i" and x[1][1].startswith(NS_E) and x[2][0] == "l" and not x[2][2] and not x[2][3]
+
+
+def _xml_props(qs, anon_subj, style, ind, fold=None):
+    """fold = (skip, attrs_of): ids of statements written elsewhere as property attributes, and for an empty property
+    element (rdf:resource / rdf:nodeID) the property attributes it carries"""
+    skip, attrs_of = fold or (set(), {})
     out = []
     for q in qs:
+        if id(q) in skip:
+            continue
         tag, o = _xml_qname(q[1][1]), q[2]
         if o[0] == "i":
-            out.append("%s<%s rdf:resource=%s/>" % (ind, tag, quoteattr(o[1])))
+            out.append("%s<%s rdf:resource=%s%s/>" % (ind, tag, quoteattr(o[1]), _xml_attrs(attrs_of.get(id(q), []))))
         elif o[0] == "n":
-            out.append("%s<%s rdf:nodeID=%s/>" % (ind, tag, quoteattr(o[1])))
+            out.append("%s<%s rdf:nodeID=%s%s/>" % (ind, tag, quoteattr(o[1]), _xml_attrs(attrs_of.get(id(q), []))))
         elif o[0] == "l":
             att = ""
             if o[3]:
@@ -320,7 +335,7 @@ def _xml_props(qs, anon_subj, style, ind):
                 # property attributes on an empty property element: a fresh node with those literal properties
                 out.append("%s<%s %s/>" % (ind, tag, " ".join("%s=%s" % (_xml_qname(x[1][1]), quoteattr(x[2][1])) for x in own)))
                 continue
-            inner = _xml_props(own, anon_subj, style, ind + "    ")
+            inner = _xml_props(own, anon_subj, style, ind + "    ", fold)
             if style.get("anonstyle") and inner:
                 out += ["%s<%s rdf:parseType=\"Resource\">" % (ind, tag)] + inner + ["%s</%s>" % (ind, tag)]
             else:
@@ -330,6 +345,12 @@ def _xml_props(qs, anon_subj, style, ind):
 
 
 def write_xml(quads, style):
+    """Spelling choices for the productions that can carry rdf:nodeID (or stand for a node):
+      node element        <rdf:Description rdf:nodeID|rdf:about|-  [property attributes]>   (style nodeattr)
+                          typed node element  <e:T …>  for an rdf:type statement               (style typednode)
+      empty property elt  <e:p rdf:nodeID|rdf:resource  [property attributes]/>               (style nodeidattr)
+                          <e:p [property attributes]/>   (anonymous object; style propattr)
+      parseType           Resource (anonstyle), Collection (items: rdf:Description rdf:about|rdf:nodeID)"""
     if any(q[3] is not None for q in quads):
         raise ValueError("xml: named graph")
     anon_subj = {}
@@ -337,8 +358,29 @@ def write_xml(quads, style):
         if q[0][0] == "a":
             anon_subj.setdefault(q[0], []).append(q)
     obj_anon = {q[2] for q in quads if q[2][0] == "a"}
+    skip, attrs_of = set(), {}
+    if style.get("nodeidattr"):
+        # <e:p rdf:nodeID="x" e:q="lit"/>  =  s p _:x .  _:x q "lit" .   (likewise rdf:resource): the first reference to a
+        # node as an object takes that node's plain-literal statements (one per predicate) as property attributes
+        done = set()
+        for q in quads:
+            o = q[2]
+            if o[0] not in "ni" or o in done or id(q) in skip or q[1] == ("i", RDFNS + "first"):
+                continue            # (an rdf:first statement may be written as a parseType="Collection" item, not a property element)
+            pairs, preds = [], set()
+            for x in quads:
+                if x is not q and x[0] == o and id(x) not in skip and id(x) not in attrs_of and _xml_foldable(x) and x[1] not in preds:
+                    preds.add(x[1])
+                    pairs.append((x[1], x[2]))
+                    skip.add(id(x))
+            if pairs:
+                attrs_of[id(q)] = pairs
+                done.add(o)
+    fold = (skip, attrs_of)
     items, seen = [], {}
     for q in quads:
+        if id(q) in skip:
+            continue
         s = q[0]
         if s[0] == "a":
             if s not in obj_anon and s not in seen:
@@ -355,13 +397,38 @@ def write_xml(quads, style):
     out = ['<?xml version="1.0" encoding="utf-8"?>',
            '<rdf:RDF xmlns:rdf="%s" xmlns:e="%s">' % (RDFNS, NS_E)]
     for s, qs in items:
+        qs = [q for q in qs if id(q) not in skip]
         if s[0] == "i":
             att = " rdf:about=%s" % quoteattr(s[1])
         elif s[0] == "n":
             att = " rdf:nodeID=%s" % quoteattr(s[1])
         else:
             att = ""
-        out += ["  <rdf:Description%s>" % att] + _xml_props(qs, anon_subj, style, "    ") + ["  </rdf:Description>"]
+        name = "rdf:Description"
+        if style.get("typednode"):
+            for q in qs:
+                if (q[1] == ("i", RDFNS + "type") and q[2][0] == "i" and q[2][1].startswith(NS_E)
+                        and q[2][1][len(NS_E):].isalnum() and id(q) not in attrs_of):
+                    name = "e:" + q[2][1][len(NS_E):]          # typed node element
+                    qs = [x for x in qs if x is not q]
+                    break
+        if style.get("nodeattr"):
+            pairs, preds = [], set()
+            for q in qs:
+                if _xml_foldable(q) and q[1] not in preds:
+                    preds.add(q[1])
+                    pairs.append((q[1], q[2]))
+            if pairs:
+                taken = set()
+                rest = []
+                for q in qs:
+                    if _xml_foldable(q) and q[1] not in taken and (q[1], q[2]) in pairs:
+                        taken.add(q[1])
+                    else:
+                        rest.append(q)
+                qs = rest
+                att += _xml_attrs(pairs)
+        out += ["  <%s%s>" % (name, att)] + _xml_props(qs, anon_subj, style, "    ", fold) + ["  </%s>" % name]
     out.append("</rdf:RDF>")
     return "\n".join(out) + "\n"
 
